@@ -118,8 +118,18 @@ func (E *Engine) mapCardH(h map[string]string, m *Val) string {
 
 func (E *Engine) mapCard(st *State, m *Val) string {
 	c := E.mapCardH(st.heap, m)
-	st.assume(sx(">=", c, "0"))
+	st.assume(sx(">=", c, "0"), sx("<=", c, maxLen))
+	st.assume(E.cardEmptyFact(st.heap, m))
 	return c
+}
+
+// cardEmptyFact: a map without keys has cardinality 0 (and a map with a key has card >= 1 is
+// maintained by the update rules).
+func (E *Engine) cardEmptyFact(h map[string]string, m *Val) string {
+	_, ks, _ := E.mapInfo(m.T)
+	k := E.freshName("k")
+	dom := E.mapDom(h, m)
+	return implies(fmt.Sprintf("(forall ((%s %s)) (not (select %s %s)))", k, ks, dom, k), eq(E.mapCardH(h, m), "0"))
 }
 
 func (E *Engine) mapGet(h map[string]string, m, k *Val) *Val {
@@ -347,6 +357,7 @@ func (E *Engine) concCall(st *State, in ssa.Instruction, key string, cc *ssa.Cal
 		}
 		// remember the snapshot for RUnlock's "unchanged" check
 		st.ghost["locksnap:"+id] = fmt.Sprint(len(E.snaps))
+		st.ghost["lastsnap"] = fmt.Sprint(len(E.snaps))
 		E.snaps = append(E.snaps, copyHeap(st.heap))
 		return nil, true
 	case "(*sync.Mutex).Unlock", "(*sync.RWMutex).Unlock", "(*sync.RWMutex).RUnlock":
